@@ -180,19 +180,17 @@ func c15SessSpec(name string) *irSpec {
 }
 
 func init() {
-	register(Extractor{Module: "FactsC15IR", Imports: []string{"EgVerif.Model.Delivery", "EgVerif.Model.SessionQueue"}, Run: func(r *Repo, w *Lean) error {
+	// Three generated modules (round 3): a failed extraction of one Go function takes down only the obligations
+	// of its own module, so that `bin/check` names the right obligation:
+	//   FactsC15IRb  broker.go / topic.go : sendMsgToClient, addClients      (Proofs/FanoutIR.lean)
+	//   FactsC15IRp  client.go            : processPublish                   (Proofs/ProcessPublishIR.lean)
+	//   FactsC15IR   session.go           : getPacketFromMsg, publish, puback, doResend (Proofs/SessionQueueIR.lean)
+	register(Extractor{Module: "FactsC15IRb", Imports: []string{"EgVerif.Model.Delivery"}, Run: func(r *Repo, w *Lean) error {
 		w.Line("set_option linter.unusedVariables false")
-		w.Line("open EgVerif.Topic EgVerif.SessionQueue")
+		w.Line("open EgVerif.Topic")
 		w.Line("")
 		w.Line("/-- `b.getClient(id)`: nil unless the client is registered on this broker -/")
 		w.Line("def getClientE (conn : Client → Bool) (c : Client) : Option Client := if conn c then some c else none")
-		w.Line("/-- `s.broker.getClient(s.info.ClientID)` of the session's own client -/")
-		w.Line("def clientOf (online : Bool) : Option Unit := if online then some () else none")
-		w.Line("/-- `val, ok := s.pending[idx]` -/")
-		w.Line("def lookupMsg (p : List (Nat × Msg)) (i : Nat) : Msg × Bool :=")
-		w.Line("  match alGet i p with")
-		w.Line("  | some m => (m, true)")
-		w.Line("  | none => (⟨\"\", \"\", 0⟩, false)")
 		w.Line("")
 
 		// Broker.sendMsgToClient
@@ -258,11 +256,14 @@ func init() {
 		w.Line("  | some q => (q, true)")
 		w.Line("  | none => (0, false)")
 		w.Line("")
-		if err := irEmit(r, w, "pkg/object/mqttproxy/topic.go", "topicNode", "addClients", ac,
-			"`cls` = `node.clients` in iteration order, `ans0` = the result map before the call; result: the map afterwards."); err != nil {
-			return err
-		}
+		return irEmit(r, w, "pkg/object/mqttproxy/topic.go", "topicNode", "addClients", ac,
+			"`cls` = `node.clients` in iteration order, `ans0` = the result map before the call; result: the map afterwards.")
+	}})
 
+	register(Extractor{Module: "FactsC15IRp", Imports: []string{"EgVerif.Model.SessionQueue"}, Run: func(r *Repo, w *Lean) error {
+		w.Line("set_option linter.unusedVariables false")
+		w.Line("open EgVerif.SessionQueue")
+		w.Line("")
 		// processPublish (client.go): the PUBACK for an inbound QoS1 PUBLISH (after limiter and pipeline passed)
 		pp := &irSpec{
 			Name:    "processPublishIR",
@@ -299,12 +300,24 @@ func init() {
 				return "acks", nil
 			},
 		}
-		if err := irEmit(r, w, "pkg/object/mqttproxy/client.go", "", "processPublish", pp,
-			"`qos`, `i` = the inbound PUBLISH packet's QoS and packet id; result: the ids of the PUBACK packets written."); err != nil {
-			return err
-		}
+		return irEmit(r, w, "pkg/object/mqttproxy/client.go", "", "processPublish", pp,
+			"`qos`, `i` = the inbound PUBLISH packet's QoS and packet id; result: the ids of the PUBACK packets written.")
+	}})
 
+	register(Extractor{Module: "FactsC15IR", Imports: []string{"EgVerif.Model.SessionQueue"}, Run: func(r *Repo, w *Lean) error {
+		w.Line("set_option linter.unusedVariables false")
+		w.Line("open EgVerif.Topic EgVerif.SessionQueue")
+		w.Line("")
+		w.Line("/-- `s.broker.getClient(s.info.ClientID)` of the session's own client -/")
+		w.Line("def clientOf (online : Bool) : Option Unit := if online then some () else none")
+		w.Line("/-- `val, ok := s.pending[idx]` -/")
+		w.Line("def lookupMsg (p : List (Nat × Msg)) (i : Nat) : Msg × Bool :=")
+		w.Line("  match alGet i p with")
+		w.Line("  | some m => (m, true)")
+		w.Line("  | none => (⟨\"\", \"\", 0⟩, false)")
+		w.Line("")
 		const file = "pkg/object/mqttproxy/session.go"
+		var s *irSpec
 		// Session.getPacketFromMsg
 		s = c15SessSpec("getPacketIR")
 		s.Binders, s.BNames, s.RetTy = "(s : Sess) (m : Msg)", []string{"s", "m"}, "Packet × Nat"
